@@ -289,6 +289,37 @@ def r4_length(ctx):
         ctx.check(ok, "C05.R4", f, st, "fraction None (and count None) refused before", "a None fraction reaches the multiplication", construct="both-None refusal")
 
 
+def r4b_single_writer(ctx):
+    """The burn-in length read by the phase test is the configured one: the only statement allowed to write the `n_burn_in_iter` entry of
+    an algorithm's parameters is the (guarded) derivation in AlgorithmWithSamplersMixin.__init__ checked by R4."""
+    ctx.rule("C05.R4b", "the `n_burn_in_iter` entry is written by the guarded derivation of the constructor only (package-wide)", 1)
+    KEY = "n_burn_in_iter"
+    n = 0
+    for f in ctx.ix.iter_funcs():
+        for st in statements(f.node):
+            hit = None
+            if isinstance(st, (ast.Assign, ast.AugAssign, ast.AnnAssign)):
+                for t in (st.targets if isinstance(st, ast.Assign) else [st.target]):
+                    for x in ast.walk(t):
+                        if isinstance(x, ast.Subscript) and isinstance(x.slice, ast.Constant) and x.slice.value == KEY and "algo_parameters" in U(x.value):
+                            hit = x
+            elif isinstance(st, ast.Expr) and isinstance(st.value, ast.Call) and isinstance(st.value.func, ast.Attribute) and "algo_parameters" in U(st.value.func.value):
+                c = st.value
+                if c.func.attr in ("setdefault", "pop", "__setitem__") and c.args and isinstance(c.args[0], ast.Constant) and c.args[0].value == KEY:
+                    hit = c
+                if c.func.attr == "update" and (any(k.arg == KEY for k in c.keywords) or any(isinstance(a, ast.Dict) and any(isinstance(k, ast.Constant) and k.value == KEY for k in a.keys) for a in c.args)):
+                    hit = c
+            if hit is None:
+                continue
+            n += 1
+            ok = f.mod == SAMP and f.qual == "AlgorithmWithSamplersMixin.__init__"
+            ctx.check(ok, "C05.R4b", f, st, "the constructor's derivation (its guard is checked by C05.R4)",
+                      f"`{U(st)[:90]}` rewrites the burn-in length outside the constructor: an explicitly configured `n_burn_in_iter` (or the one the run started with) is replaced, "
+                      "so the memory-less phase and the offset of the step sizes are not the configured ones")
+    if n == 0:
+        ctx.violation("C05.R4b", (SAMP, "AlgorithmWithSamplersMixin.__init__"), None, "no statement derives `n_burn_in_iter` any more", construct="writers of n_burn_in_iter")
+
+
 def r5_statistics_not_rewritten(ctx):
     """After a memory-less step `self.sufficient_statistics` IS the dictionary returned by compute_sufficient_statistics, whose entries
     are the State's own tensors: an in-place operation on a value read from the State rewrites S_(k-1) before it enters the convex
@@ -307,6 +338,7 @@ def rules(ctx):
     r2_convex(ctx)
     r3_validation(ctx)
     r4_length(ctx)
+    r4b_single_writer(ctx)
     r5_statistics_not_rewritten(ctx)
     ctx.trust("Python int comparison / arithmetic semantics for the enumerated guards; sympy expand")
 
